@@ -757,9 +757,8 @@ def oracle_query(s, q, r):
     # the interpolation variable
     got = num_of(t_get(res, qpath))
     if got is None or got != v:
-        typ = "int" if "i" in (t_get(template, qpath) or {}) else "float"
         fails.append(("interpolation variable is %r, requested %r" % (got, v),
-                      ["variable-not-assigned", "variable-not-assigned:" + typ]))
+                      []))
     # every float parameter is the interpolant -- and a float
     order = sorted(range(len(keys)), key=lambda i: keys[i])
     xs = [float(keys[i]) for i in order]
@@ -812,7 +811,7 @@ def oracle_query(s, q, r):
                 fails.append(("data of %s are linear (%s*t+%s) but the result %r is not on the line at %r" % (plain(p), a, b, gotv, v), cls))
     if arrays:
         fails.append(("interpolated parameters %s of the result are 0-d numpy arrays, not floats" % (arrays[:4],),
-                      ["spline-result-is-array"] if q["method"] == "spline" else []))
+                      []))
     # shape and non-float attributes are those common to the series (the variable is judged above:
     # it may legitimately change between int and float)
     if agree_nonfloat and not arrays and not same_but_variable(res, template, qpath):
@@ -955,6 +954,13 @@ def replayable(c, queries):
     return one
 
 
+# corpus cases of findings repaired in /repo -> signature of the finding (known_findings/C20.json, status fixed)
+PINNED = {"int-variable": "final-replacement-discarded", "spline-result-float": "spline-result-is-array"}
+# the clause of the oracle each pinned case is about (other failures of the case are reported as usual)
+PINNED_CLAUSE = {"int-variable": ("interpolation variable is", "query raised"),
+                 "spline-result-float": ("interpolated parameters", "query raised", "float parameter")}
+
+
 def attach_requests(c):
     for q in c["queries"]:
         insts = [c["insts"][j] for j in q["perm"]]
@@ -1006,8 +1012,9 @@ def run(ctx):
         ctx.obligation("translator:Gen.v", "translator", True, "li_eval; assigns_final=%s" % infos["assigns_final"]["value"])
         ctx.notes["code_variant"] = (
             "final replacing_for_path result is KEPT: C20_variable (full statement) applies to the code" if infos["assigns_final"]["value"]
-            else "final replacing_for_path result is DISCARDED: C20_variable_refuted / C20_variable_partial describe the code "
-                 "(known finding final-replacement-discarded); C20_variable holds for the proposed repair")
+            else "final replacing_for_path result is DISCARDED (regression of dbd9428): C20_variable_code no longer compiles")
+        ctx.notes["spline_leaf"] = ("SplineInterpolator returns a float: C20_leaf_code applies" if infos["spline_returns_float"]["value"]
+                                    else "SplineInterpolator returns a 0-d array (regression of 3338de6): C20_leaf_code no longer compiles")
         translated = True
     except T.TranslationError as e:
         ctx.obligation("translator:Gen.v", "translator", False, str(e))
@@ -1035,6 +1042,7 @@ def run(ctx):
         for j, r in enumerate(out["results"]):
             results[k + j * nchunk] = r
     coq_cases, coq_idx = [], []
+    pinned = {}
     for i, (c, r) in enumerate(zip(cases, results)):
         if "exc" in r:
             ctx.obligation("impl-driver", "harness", False, "driver failed on case %d: %s" % (i, r.get("msg")))
@@ -1076,6 +1084,10 @@ def run(ctx):
             ctx.count_case(key, query_nontrivial(c, q, rq), "%s/%s/%s" % (q["method"], q.get("qkind"), rq["kind"]))
             ctx.oracle["cases"] += 1
             fails = oracle_query(c, q, rq)
+            if feats.get("corpus") in PINNED:
+                pinned.setdefault(feats["corpus"], []).extend(m for m, _ in fails if m.startswith(PINNED_CLAUSE[feats["corpus"]]))
+                if rq["kind"] == "exc":
+                    pinned[feats["corpus"]].append("query raised %s" % rq.get("exc"))
             for msg, classes in fails:
                 ctx.oracle["failures"] += 1
                 ctx.failure("oracle", msg, replayable(c, [q]), classes=classes, impl={k: v for k, v in rq.items() if k != "oracle"})
@@ -1091,6 +1103,15 @@ def run(ctx):
             continue
         coq_cases.append(ccase(c, r))
         coq_idx.append(i)
+    # pinned corpus cases of repaired findings: they must pass now (an obligation each, so a regression is named)
+    for name, sig in PINNED.items():
+        if ctx.replay:
+            break
+        if name not in pinned:
+            ctx.obligation("regression:" + sig, "regression", False, "pinned corpus case corpus/C20/%s.json did not run" % name)
+        else:
+            ctx.obligation("regression:" + sig, "regression", not pinned[name],
+                           "corpus/C20/%s.json passes" % name if not pinned[name] else "; ".join(pinned[name][:3])[:600])
     # 4. correspondence inside Coq
     if os.path.exists(os.path.join(common.COQ, "C20", "Model.vo")):
         hdr = ctx.header(["Common.PyFloat", "Gen", "Model"])
@@ -1138,8 +1159,9 @@ MANIFEST = {
             "the spline it is the identity with scipy's default CubicSpline that is pinned bit-exactly (another spline satisfying the "
             "property text would need the oracle table changed), and exactness on linear data is a hypothesis checked at a "
             "condition-number-scaled tolerance. Non-mutation of inputs is checked on the implementation only (the tree model is "
-            "functional, deepcopy and aliasing are not modelled). Dict-valued attributes are oracle-only. Recorded findings: floats "
-            "inside tuples, floats inside dicts (raises), spline results are 0-d arrays (repair proposed). Not covered: "
+            "functional, deepcopy and aliasing are not modelled). Dict-valued attributes are oracle-only. Still-known findings: floats "
+            "inside tuples (not interpolated), floats inside dicts (query raises). Repaired in /repo and pinned by regression "
+            "obligations + theorems C20_variable_code / C20_leaf_code: discarded final replacement, spline results as 0-d arrays. Not covered: "
             "CovarianceInterpolator, NaN abscissae, int abscissae beyond 2^53.",
     "technique": "machine-checked proof in Coq (translator-regenerated model) + vm_compute correspondence",
 }
